@@ -67,7 +67,7 @@ def _chunk(arg):
     out = {"cases": 0, "variants": 0, "fails": [], "samples": [], "hashes": [], "known": 0}
     for idx in idxs:
         r = rng_for(seed, "style", idx)
-        ast = gen_story.generate(r.randrange(1 << 30), dict(comments=0, faults=0.05, stmt_faults=0.0, py_blocks=0.4, join=0.4, hooks=0.4, params=0.4, colon_conds=0.6))
+        ast = gen_story.generate(r.randrange(1 << 30), dict(comments=0, faults=0.05, stmt_faults=0.0, py_blocks=0.4, join=0.4, hooks=0.4, params=0.4, colon_conds=0.6, imports=0.3))
         base_src = gen_story.print_story(ast, {"comments": False})
         base = compile_outcome(base_src)
         if base[0] != "ok":
